@@ -26,7 +26,7 @@ Section RingProofs.
   Variables K B : nat.
   Hypothesis HK : 2 <= K.
   Hypothesis HB : 1 <= B.
-  Variable prog0 : list (list Z).
+  Variable prog0 : list rop.
 
   Definition rinit := ring_init 0 K B prog0.
 
@@ -157,9 +157,17 @@ Section RingProofs.
           -- intros n Hn. rewrite Nat.sub_0_r in *. rewrite Jpi, (win_upd' _ _ _ _ (r_ca s)) by lia.
              rewrite (Jwin n) by lia. intuition (try congruence; try lia).
           -- intros _. rewrite Nat.sub_0_r, Jpi, upd_same. exact Ecur.
-      + (* first write() *)
-        unfold r_loop_test. destruct (Nat.ltb B (r_cur s + length w));
-          constructor; runf; rewrite ?Epc, ?Ecp in *; try rfin.
+      + (* first call *)
+        destruct w as [w|amount w].
+        * unfold r_loop_test. destruct (Nat.ltb B (r_cur s + length w));
+            constructor; runf; rewrite ?Epc, ?Ecp in *; try rfin.
+        * destruct (Nat.ltb B (r_cur s + amount) && negb (Nat.eqb (r_cur s) 0)) eqn:Esp.
+          -- apply andb_true_iff in Esp. destruct Esp as [_ Ecur]. apply negb_true_iff, Nat.eqb_neq in Ecur.
+             constructor; runf; rewrite ?Epc, ?Ecp in *; try rfin; try (rewrite Jpi; exact Hnext).
+             ++ intros n Hn. rewrite Nat.sub_0_r in *. rewrite Jpi, (win_upd' _ _ _ _ (r_ca s)) by lia.
+                rewrite (Jwin n) by lia. intuition (try congruence; try lia).
+             ++ intros _. rewrite Nat.sub_0_r, Jpi, upd_same. exact Ecur.
+          -- constructor; runf; rewrite ?Epc, ?Ecp in *; try rfin.
     - (* RPFill *)
       destruct (Nat.eqb B 0) eqn:EB0; [apply Nat.eqb_eq in EB0; lia|]. inversion H; subst s'; clear H.
       assert (Ecp : r_cpc s <> RCNotStarted) by (intros E; apply Jst in E; destruct E; discriminate).
@@ -174,8 +182,13 @@ Section RingProofs.
       destruct (r_prog s) as [|w rest] eqn:Eprog.
       + destruct (Nat.eqb (r_cur s + length (r_pend s)) 0) eqn:Ecur; [|apply Nat.eqb_neq in Ecur];
           constructor; runf; rewrite ?Epc in *; try rfin; try (rewrite Jpi; exact Hnext); try t_rest Jpi Jci Jwin Jwr Jst Ecp.
-      + unfold r_loop_test. destruct (Nat.ltb B (r_cur s + length (r_pend s) + length w));
-          constructor; runf; rewrite ?Epc in *; try rfin; try t_rest Jpi Jci Jwin Jwr Jst Ecp.
+      + destruct w as [w|amount w].
+        * unfold r_loop_test. destruct (Nat.ltb B (r_cur s + length (r_pend s) + length w));
+            constructor; runf; rewrite ?Epc in *; try rfin; try t_rest Jpi Jci Jwin Jwr Jst Ecp.
+        * destruct (Nat.ltb B (r_cur s + length (r_pend s) + amount) && negb (Nat.eqb (r_cur s + length (r_pend s)) 0)) eqn:Esp.
+          -- apply andb_true_iff in Esp. destruct Esp as [_ Ecur]. apply negb_true_iff, Nat.eqb_neq in Ecur.
+             constructor; runf; rewrite ?Epc in *; try rfin; try (rewrite Jpi; exact Hnext); try t_rest Jpi Jci Jwin Jwr Jst Ecp.
+          -- constructor; runf; rewrite ?Epc in *; try rfin; try t_rest Jpi Jci Jwin Jwr Jst Ecp.
     - (* RPSpillPost *)
       assert (Ecp : r_cpc s <> RCNotStarted) by (intros E; apply Jst in E; destruct E; discriminate).
       inversion H; subst s'; clear H. runf. rewrite ?Epc in *.
@@ -323,6 +336,12 @@ Section RingProofs.
 
   (* ---- content: the file is the concatenation of the writes ---- *)
 
+  (* an in-place value fits into the space Ensure() reserved for it, and that space into a block *)
+  Definition rop_ok (o : rop) : Prop :=
+    match o with RWrite _ => True | RPut amount bytes => length bytes <= amount /\ amount <= B end.
+  Hypothesis Hprog0 : Forall rop_ok prog0.
+  Definition allbytes (p : list rop) : list Z := concat (map rop_bytes p).
+
   Definition curpart (s : rstate) : list Z :=
     if owner_holds s then firstn (r_cur s) (r_data s (r_pi s)) else [].
 
@@ -331,7 +350,8 @@ Section RingProofs.
     fi_file : r_file s = concat (firstn (r_ca s) (r_hist s));
     fi_win : forall n, r_ca s <= n < r_pa s ->
              firstn (r_size s (n mod K)) (r_data s (n mod K)) = nth n (r_hist s) [];
-    fi_all : concat (r_hist s) ++ curpart s ++ r_pend s ++ concat (r_prog s) = concat prog0;
+    fi_all : concat (r_hist s) ++ curpart s ++ r_pend s ++ allbytes (r_prog s) = allbytes prog0;
+    fi_ok : Forall rop_ok (r_prog s);
     fi_cur : owner_holds s = true -> r_cur s <= length (r_data s (r_pi s)) /\ r_cur s <= B;
     fi_start : (r_ppc s = RPCtorWait \/ r_ppc s = RPSpawn) -> r_pend s = [] /\ r_cur s = 0;
     fi_rest : r_ppc s = RPRest -> r_cur s + length (r_pend s) <= B;
@@ -412,7 +432,7 @@ Section RingProofs.
     pose proof (ri_pi s R) as Jpi.
     assert (Hst : r_cpc s = RCNotStarted -> r_flushes s = 0).
     { intros E. rewrite (fi_flush s F), E. reflexivity. }
-    destruct F as [Flen Ffile Fwin Fall Fcur Fstart Frest Fflush Fpois Fdtor].
+    destruct F as [Flen Ffile Fwin Fall Fok Fcur Fstart Frest Fflush Fpois Fdtor].
     unfold curpart, owner_holds in *.
     (* goals after the owner left block r_pi s with content data'/size' *)
     assert (Hhand : forall data' size',
@@ -437,7 +457,7 @@ Section RingProofs.
       destruct (Fcur eq_refl) as [Hcl HcB]. specialize (Hroom eq_refl).
       assert (Ecp : r_cpc s = RCNotStarted) by (apply (ri_started s R); right; exact Epc).
       inversion H; subst s'; clear H. unfold r_next_write, r_dtor. simpl.
-      rewrite Hc0, Hp0 in *. simpl in Fall.
+      rewrite Hc0, Hp0 in *. unfold allbytes in *. simpl in Fall.
       destruct (r_prog s) as [|w rest] eqn:Eprog.
       + simpl.
         destruct (Hhand (r_data s) (upd (r_size s) (r_pi s) 0)) as (G1 & G2 & G3);
@@ -446,10 +466,15 @@ Section RingProofs.
         all: try solve [rewrite concat_app; simpl; rewrite upd_same; simpl; rewrite !app_nil_r in *; exact Fall].
         all: try solve [rewrite Hst by exact Ecp; reflexivity].
         all: try solve [intros _; rewrite Nat.sub_0_r, <- Flen, nth_app_new, upd_same; simpl; auto].
-      + unfold r_loop_test. simpl.
-        destruct (Nat.ltb B (length w)) eqn:Elt;
-          constructor; runf; unfold curpart, owner_holds; simpl; rewrite ?Epc in *; try ffin.
-        all: try solve [intros _; apply Nat.ltb_ge in Elt; simpl in Elt; lia].
+      + inversion Fok as [|w0 r0 Hw Hrest]; subst.
+        destruct w as [w|amount w]; simpl in *.
+        * unfold r_loop_test. simpl.
+          destruct (Nat.ltb B (length w)) eqn:Elt;
+            constructor; runf; unfold curpart, owner_holds, allbytes; simpl; rewrite ?Epc in *; try ffin.
+          all: try solve [intros _; apply Nat.ltb_ge in Elt; simpl in Elt; lia].
+        * rewrite andb_false_r.
+          constructor; runf; unfold curpart, owner_holds, allbytes; simpl; rewrite ?Epc in *; try ffin.
+          all: try solve [intros _; lia].
     - (* Fill *)
       destruct (Nat.eqb B 0) eqn:EB0; [apply Nat.eqb_eq in EB0; lia|]. inversion H; subst s'; clear H.
       destruct (Fcur eq_refl) as [Hcl HcB]. specialize (Hroom eq_refl).
@@ -471,8 +496,8 @@ Section RingProofs.
       { unfold blk. rewrite app_length, firstn_length. lia. }
       destruct (r_prog s) as [|w rest] eqn:Eprog.
       + (* destructor *)
-        assert (Hall : concat (r_hist s) ++ blk = concat prog0).
-        { unfold blk. simpl in Fall. rewrite app_nil_r in Fall. exact Fall. }
+        assert (Hall : concat (r_hist s) ++ blk = allbytes prog0).
+        { unfold blk. unfold allbytes in Fall at 1. simpl in Fall. rewrite app_nil_r in Fall. exact Fall. }
         destruct (Nat.eqb (r_cur s + length (r_pend s)) 0) eqn:Ecur.
         * apply Nat.eqb_eq in Ecur.
           destruct (Hhand data' (upd (r_size s) (r_pi s) 0)) as (G1 & G2 & G3);
@@ -488,18 +513,40 @@ Section RingProofs.
           { unfold data'. rewrite !upd_same. apply firstn_all2. lia. }
           constructor; runf; unfold curpart, owner_holds; simpl; rewrite ?Epc in *; try ffin.
           all: try solve [rewrite Hb, concat_app; simpl; rewrite !app_nil_r; exact Hall].
-      + (* next write() *)
+      + (* next call *)
         assert (Hsame : forall n, r_ca s <= n < r_pa s -> data' (n mod K) = r_data s (n mod K)).
         { intros n Hn. unfold data'. apply upd_other. rewrite Jpi. apply mod_neq; lia. }
         assert (Hfb : firstn (r_cur s + length (r_pend s)) (data' (r_pi s)) = blk).
         { unfold data'. rewrite upd_same. apply firstn_all2. lia. }
-        unfold r_loop_test.
-        destruct (Nat.ltb B (r_cur s + length (r_pend s) + length w)) eqn:Elt;
-          constructor; runf; unfold curpart, owner_holds; simpl; rewrite ?Epc in *; try ffin.
-        all: try solve [intros n Hn; rewrite (Hsame n Hn); apply Fwin; exact Hn].
-        all: try solve [rewrite Hfb; unfold blk; rewrite <- Fall; simpl; rewrite <- !app_assoc; reflexivity].
-        all: try solve [intros _; unfold data'; rewrite upd_same; lia].
-        all: try solve [intros _; apply Nat.ltb_ge in Elt; lia].
+        inversion Fok as [|w0 r0 Hw Hrest]; subst.
+        assert (Hall : concat (r_hist s) ++ blk ++ rop_bytes w ++ allbytes rest = allbytes prog0).
+        { rewrite <- Fall. unfold blk, allbytes. simpl. rewrite <- !app_assoc. reflexivity. }
+        destruct w as [w|amount w]; simpl in Hall.
+        * unfold r_loop_test.
+          destruct (Nat.ltb B (r_cur s + length (r_pend s) + length w)) eqn:Elt;
+            constructor; runf; unfold curpart, owner_holds; simpl; rewrite ?Epc in *; try ffin.
+          all: try solve [intros n Hn; rewrite (Hsame n Hn); apply Fwin; exact Hn].
+          all: try solve [rewrite Hfb; exact Hall].
+          all: try solve [intros _; unfold data'; rewrite upd_same; lia].
+          all: try solve [intros _; apply Nat.ltb_ge in Elt; lia].
+        * simpl in Hw.
+          destruct (Nat.ltb B (r_cur s + length (r_pend s) + amount) && negb (Nat.eqb (r_cur s + length (r_pend s)) 0)) eqn:Esp.
+          -- (* partial block handed over *)
+             apply andb_true_iff in Esp. destruct Esp as [_ Ecur]. apply negb_true_iff, Nat.eqb_neq in Ecur.
+             destruct (Hhand data' (upd (r_size s) (r_pi s) (r_cur s + length (r_pend s)))) as (G1 & G2 & G3);
+               [intros m Hm; unfold data'; rewrite !upd_other by exact Hm; auto|exact Hroom|].
+             assert (Hb : firstn (upd (r_size s) (r_pi s) (r_cur s + length (r_pend s)) (r_pi s)) (data' (r_pi s)) = blk).
+             { unfold data'. rewrite !upd_same. apply firstn_all2. lia. }
+             constructor; runf; unfold curpart, owner_holds; simpl; rewrite ?Epc in *; try ffin.
+             all: try solve [rewrite Hb, concat_app; simpl; rewrite !app_nil_r, <- app_assoc; exact Hall].
+          -- apply andb_false_iff in Esp.
+             assert (Hfit2 : r_cur s + length (r_pend s) + length w <= B).
+             { destruct Esp as [Esp|Esp]; [apply Nat.ltb_ge in Esp; lia|].
+               apply negb_false_iff, Nat.eqb_eq in Esp. lia. }
+             constructor; runf; unfold curpart, owner_holds; simpl; rewrite ?Epc in *; try ffin.
+             all: try solve [intros n Hn; rewrite (Hsame n Hn); apply Fwin; exact Hn].
+             all: try solve [rewrite Hfb; exact Hall].
+             all: try solve [intros _; unfold data'; rewrite upd_same; lia].
     - (* SpillPost *)
       inversion H; subst s'; clear H.
       constructor; runf; unfold curpart, owner_holds; simpl; rewrite ?Epc in *; try ffin.
@@ -543,7 +590,7 @@ Section RingProofs.
     intros R F H. unfold ring_step_writer in H.
     destruct (rinv_room s R) as (Hle & _ & _ & Hlt).
     pose proof (ri_ci s R) as Jci.
-    destruct F as [Flen Ffile Fwin Fall Fcur Fstart Frest Fflush Fpois Fdtor].
+    destruct F as [Flen Ffile Fwin Fall Fok Fcur Fstart Frest Fflush Fpois Fdtor].
     unfold curpart, owner_holds in *.
     destruct (r_cpc s) eqn:Ecpc; try discriminate.
     - inversion H; subst s'; clear H.
@@ -585,11 +632,11 @@ Section RingProofs.
 
   (* safety: at every moment the bytes handed to the writer are a prefix of the concatenation of all writes *)
   Lemma ring_file_prefix_proof s : reachable (ring_step K B) rinit s ->
-    exists rest, r_file s ++ rest = concat prog0.
+    exists rest, r_file s ++ rest = allbytes prog0.
   Proof.
     intros Hr. destruct (rfinv_reachable s Hr) as [R F]. destruct (rinv_room s R) as (Hle & _).
-    destruct F as [Flen Ffile Fwin Fall Fcur Fstart Frest Fflush Fpois Fdtor].
-    exists (concat (skipn (r_ca s) (r_hist s)) ++ curpart s ++ r_pend s ++ concat (r_prog s)).
+    destruct F as [Flen Ffile Fwin Fall Fok Fcur Fstart Frest Fflush Fpois Fdtor].
+    exists (concat (skipn (r_ca s) (r_hist s)) ++ curpart s ++ r_pend s ++ allbytes (r_prog s)).
     rewrite Ffile, app_assoc, <- concat_app, firstn_skipn. exact Fall.
   Qed.
 
@@ -597,12 +644,12 @@ Section RingProofs.
      and the writer thread was joined *)
   Lemma ring_file_complete_proof s : reachable (ring_step K B) rinit s ->
     r_ppc s = RPDone -> r_cpc s = RCDone ->
-    r_file s = concat prog0 /\ r_flushes s = 1.
+    r_file s = allbytes prog0 /\ r_flushes s = 1.
   Proof.
     intros Hr Hp Hc. destruct (rfinv_reachable s Hr) as [R F].
     pose proof (ri_exit s R) as Jexit. unfold cexiting, poison_posted in Jexit. rewrite Hc, Hp in Jexit.
     destruct (Jexit eq_refl) as [_ Hba].
-    destruct F as [Flen Ffile Fwin Fall Fcur Fstart Frest Fflush Fpois Fdtor].
+    destruct F as [Flen Ffile Fwin Fall Fok Fcur Fstart Frest Fflush Fpois Fdtor].
     unfold poison_posted in Fpois. rewrite Hp in Fpois. destruct (Fpois (or_introl eq_refl)) as (Hnil & Hpe & Hpr).
     split; [|rewrite Fflush, Hc; reflexivity].
     unfold curpart, owner_holds in Fall. rewrite Hp, Hpe, Hpr in Fall. simpl in Fall. rewrite !app_nil_r in Fall.
